@@ -1,5 +1,6 @@
 import Oracle.Common
 import MageModel.Invoke.Mage
+import MageModel.Invoke.Paths
 /-! Oracle ops for the process-level properties (C05, C11, …): `mage.front` and `mage.child`. -/
 open Lean MageModel.Parse MageModel.Gen MageModel.Gen.Flags MageModel.Invoke
 namespace Oracle.Mage
@@ -133,10 +134,43 @@ def front (j : Json) : R Json := do
     | none => [("how", jstr "none"), ("calls", Json.arr #[]), ("verbose", jbool false), ("timeout", jint 0)]
   pure (obj (("status", Json.num (JsonNumber.fromInt m.status)) :: ("parsed", jstr parsedJ) :: c))
 
+/-- C11 probe: what the target observes (effective flags through the accessors, deadline, working directory) -/
+def probe (j : Json) : R Json := do
+  let info ← infoOf j
+  let conv ← convOf j
+  let E ← envOf j
+  let argv ← strList (← fld j "argv")
+  let cwd ← fldStr j "cwd"
+  let way ← fldStr j "way"
+  let fmt := fmtOf j
+  let payload := (fldStr j "project").toOption == some "payload"
+  let mk (c : ChildOut) (debug : Bool) (gocmd dir : String) : Json :=
+    if payload then
+      obj [("how", jstr (howClass c.how)), ("status", Json.num (JsonNumber.fromInt c.status)),
+           ("stdout", jstr "same"), ("stderr", jstr "same")]
+    else
+      obj [("how", jstr (howClass c.how)), ("status", Json.num (JsonNumber.fromInt c.status)),
+         ("verbose", jbool ((parseBool (if c.verbose then "1" else "0")).getD false)), ("debug", jbool debug),
+         ("gocmd", jstr gocmd), ("timeout", jint (if c.timeout < 0 then -1 else c.timeout)), ("cwd", jstr dir),
+         ("env", jstr "same"), ("stdin", jstr "same")]
+  if way == "static" then
+    let c := childMain info conv outcomeOf E argv
+    pure (mk c (envFlag E "MAGEFILE_DEBUG") (envGoCmd E) (Paths.clean cwd))
+  else
+    match frontParse conv.parseDuration E argv with
+    | .ok inv .none =>
+      let inv' := { inv with goCmd := if inv.goCmd = "" then "go" else inv.goCmd }
+      let CE := childEnv fmt E inv'
+      let c := childMain info conv outcomeOf CE (childArgv inv')
+      pure (mk c (envFlag CE "MAGEFILE_DEBUG") (envGoCmd CE) (Paths.absFrom cwd (childDir inv')))
+    | _ => pure (obj [("how", jstr "not-run")])
+
 def handle (op : String) (j : Json) : R Json :=
   match op with
   | "mage.child" => child j
   | "mage.front" => front j
+  | "mage.probe" => probe j
+  | "mage.pair" => pure (obj [("same_effect", jbool true), ("mage", jstr "<any>"), ("compiled", jstr "<any>")])   -- the property's demand, not a model answer
   | _ => throw s!"unknown op {op}"
 
 end Oracle.Mage
